@@ -13,19 +13,25 @@ Open Scope Z_scope.
                     3 non-matching then matching rule); VB Accept-Encoding; VB response Content-Encoding; VZ has Content-Length;
                     VZ level; VZ flushSize; VB body]
      observation: [VB Content-Encoding after; VZ has Content-Length after; VZ wrapped (0/1 gzip/2 brotli);
-                   VB body decoded according to the announced Content-Encoding; VZ ok] *)
+                   VB body decoded according to the announced Content-Encoding; VZ ok]
+   op 3 (rule file + handler): [3; VB Cmd; VZ Quality; VZ FlushSize; VB Accept-Encoding; VB response Content-Encoding;
+                    VZ has Content-Length; VB body]   the rule is written to a rule file and loaded by the module
+     observation: [VZ loaded; then as op 2] *)
 Definition lz_eqb (a b : list Z) : bool := list_Z_eqb a b.
 Fixpoint sumZ (l : list Z) : Z := match l with [] => 0 | x :: r => x + sumZ r end.
 
 Inductive op :=
 | OFilter (codec level flush : Z) (cs : list bytes) (p : Z) (srcerr : bool)
-| OHandler (cmd rule : Z) (ae cenc : bytes) (has_cl : bool) (level flush : Z) (body : bytes).
+| OHandler (cmd rule : Z) (ae cenc : bytes) (has_cl : bool) (level flush : Z) (body : bytes)
+| OLoad (cmd : bytes) (quality flush : Z) (ae cenc : bytes) (has_cl : bool) (body : bytes).
 Definition dec_C54 (i : val) : option op :=
   match i with
   | VL [VZ 1; VZ codec; VZ level; VZ flush; chunks; VZ p; VZ se] =>
     match as_LB chunks with Some cs => Some (OFilter codec level flush cs p (negb (se =? 0))) | None => None end
   | VL [VZ 2; VZ cmd; VZ rule; VB ae; VB cenc; VZ has_cl; VZ level; VZ flush; VB body] =>
     Some (OHandler cmd rule ae cenc (negb (has_cl =? 0)) level flush body)
+  | VL [VZ 3; VB cmd; VZ quality; VZ flush; VB ae; VB cenc; VZ has_cl; VB body] =>
+    Some (OLoad cmd quality flush ae cenc (negb (has_cl =? 0)) body)
   | _ => None
   end.
 Definition rule_matches (rule : Z) : bool := (rule =? 1) || (rule =? 3).
@@ -47,6 +53,9 @@ Definition run_op (x : op) : val :=
   | OHandler cmd rule ae cenc has_cl level flush body =>
     let r := handler ae cenc has_cl (rule_matches rule) cmd in
     VL [VB (h_cenc r); vbool (h_has_clen r); VZ (h_wrapped r); VB body; VZ 1]
+  | OLoad cmd quality flush ae cenc has_cl body =>
+    let '(ok, r) := load_handler cmd quality flush ae cenc has_cl in
+    VL [vbool ok; VB (h_cenc r); vbool (h_has_clen r); VZ (h_wrapped r); VB body; VZ 1]
   end.
 Definition run_C54 (i : val) : val := match dec_C54 i with Some x => run_op x | None => VErr 0 end.
 
@@ -92,6 +101,20 @@ Definition prop_op (x : op) (o : val) : bool :=
           bytes_eqb cenc' cenc && (has_cl' =? (if has_cl then 1 else 0)))
     (* a response that is already encoded is never touched *)
     && (if negb (bytes_eqb cenc []) && negb (bytes_eqb cenc IDENTITY) then negb compressed else true)
+  | OLoad cmd quality flush ae cenc has_cl body, VL [VZ loaded; VB cenc'; VZ has_cl'; VZ wrapped; VB dec; VZ ok] =>
+    (* a rule file either fails to load or its rule is enforced (the command read case-insensitively), and the
+       response stays decodable / consistent either way *)
+    let compressed := negb (wrapped =? 0) in
+    let fresh := bytes_eqb cenc [] || bytes_eqb cenc IDENTITY in
+    let want := if eq_fold cmd CMD_GZIP then (if has_token ae GZIP then 1 else 0)
+                else if eq_fold cmd CMD_BROTLI then (if has_token ae BR then 2 else 0) else 3 in
+    (ok =? 1) && bytes_eqb dec body
+    && (if negb (loaded =? 0) then negb (want =? 3) && (if fresh then wrapped =? want else wrapped =? 0)
+        else wrapped =? 0)
+    && (if compressed then
+          ((bytes_eqb cenc' GZIP && (wrapped =? 1) && has_token ae GZIP)
+           || (bytes_eqb cenc' BR && (wrapped =? 2) && has_token ae BR)) && (has_cl' =? 0)
+        else bytes_eqb cenc' cenc && (has_cl' =? (if has_cl then 1 else 0)))
   | _, _ => false
   end.
 Definition prop_C54 (i o : val) : bool := match dec_C54 i with Some x => prop_op x o | None => false end.
